@@ -166,8 +166,6 @@ Section Plan.
   (* tensors of an op: (position among all operands, tensor id), -1 kept *)
   Definition get_t (ts : list tensor) (i : Z) : res tensor := py_index ts i.
 
-  (* materialize_standard_op: returns plans in operand order (without the
-     absent -1 operands) followed by the results, and the new store *)
   Inductive constraint := NoConstrain | SameAsInput | SameAsOutput.
 
   Definition first_param (p : tplan) (inbound : bool) : res (option pterm) :=
@@ -177,73 +175,81 @@ Section Plan.
                     | None => Err TypeError end
     else match tp_producer p with Some e => Ok (e_params e) | None => Ok None end.
 
+  (* non-fp32 operands join the ignore lists; python looks the tensor up
+     with the raw index, so an absent operand (-1) reads the LAST tensor;
+     it is dropped again right after, hence harmless *)
+  Definition keep_flags (ts : list tensor) (ids ign : list Z) : res (list bool) :=
+    mapM (fun it => let '(i, x) := it in
+            t <- get_t ts x ;;
+            Ok (Z.eqb (t_ty t) TY_FLOAT32 && negb (memZ i ign))) (enumerate ids).
+  Definition present (ids : list Z) (k : list bool) : list (Z * bool) :=
+    filter (fun p => negb (Z.eqb (fst p) (-1))) (combine ids k).
+  Definition kept (l : list (Z * bool)) : list Z := map fst (filter snd l).
+
+  (* merge the materialized plans with the ignored operands, keeping operand order *)
+  Fixpoint merge_plans (ts : list tensor) (opid : Z) (inbound : bool)
+           (l : list (Z * bool)) (ps : list tplan) : res (list tplan) :=
+    match l with
+    | [] => Ok []
+    | (x, true) :: r =>
+        match ps with
+        | p :: ps' => rest <- merge_plans ts opid inbound r ps' ;; Ok (p :: rest)
+        | [] => Err IndexError
+        end
+    | (x, false) :: r =>
+        t <- get_t ts x ;;
+        rest <- merge_plans ts opid inbound r ps ;;
+        Ok (entry_plan t inbound (noquant_entry opid) :: rest)
+    end.
+
+  (* the part of materialize_standard_op that looks at the kept operands *)
+  Definition standard_core (s : store) (ts : list tensor) (o : opname) (op : pop) (c : ocfg)
+             (cons : constraint) (act_in act_out : list Z)
+    : res (list tplan * list tplan * store) :=
+    let W (s : store) x inbound qp := t <- get_t ts x ;; wrapper s o (po_id op) (po_adjy op) c t inbound qp in
+    match act_in, act_out, cons with
+    | [], [], _ => Ok ([], [], s)
+    | _, _, SameAsInput =>
+        match act_in with
+        | [x] =>
+            pi <- W s x true None ;;
+            qp <- first_param pi true ;;
+            po <- mapM (fun y => W s y false qp) act_out ;;
+            (* output statistics := input statistics (KeyError if absent) *)
+            ti <- get_t ts x ;;
+            v <- match store_get s (tname ti) with Some v => Ok v | None => Err KeyError end ;;
+            s' <- foldM (fun s y => ty <- get_t ts y ;; Ok (store_set s (tname ty) v))
+                        act_out s ;;
+            Ok ([pi], po, s')
+        | _ => Err ValueError
+        end
+    | _, _, SameAsOutput =>
+        match act_out with
+        | [y] =>
+            po <- W s y false None ;;
+            qp <- first_param po false ;;
+            pi <- mapM (fun x => W s x true qp) act_in ;;
+            Ok (pi, [po], s)
+        | _ => Err ValueError
+        end
+    | _, _, NoConstrain =>
+        pi <- mapM (fun x => W s x true None) act_in ;;
+        po <- mapM (fun y => W s y false None) act_out ;;
+        Ok (pi, po, s)
+    end.
+
+  (* materialize_standard_op: returns plans in operand order (without the
+     absent -1 operands) followed by the results, and the new store *)
   Definition standard_op (s : store) (ts : list tensor) (o : opname) (op : pop) (c : ocfg)
              (cons : constraint) (ign_in ign_out : list Z) : res (list tplan * store) :=
-    (* non-fp32 operands join the ignore lists; python looks the tensor up
-       with the raw index, so an absent operand (-1) reads the LAST tensor;
-       it is dropped again right after, hence harmless *)
-    let keep (ids ign : list Z) :=
-      mapM (fun it => let '(i, x) := it in
-              t <- get_t ts x ;;
-              Ok (Z.eqb (t_ty t) TY_FLOAT32 && negb (memZ i ign))) (enumerate ids) in
-    kin <- keep (po_ins op) ign_in ;;
-    kout <- keep (po_outs op) ign_out ;;
-    let present (ids : list Z) (k : list bool) :=
-      filter (fun p => negb (Z.eqb (fst p) (-1))) (combine ids k) in
+    kin <- keep_flags ts (po_ins op) ign_in ;;
+    kout <- keep_flags ts (po_outs op) ign_out ;;
     let pin := present (po_ins op) kin in
     let pout := present (po_outs op) kout in
-    let kept (l : list (Z * bool)) := map fst (filter snd l) in
-    let act_in := kept pin in
-    let act_out := kept pout in
-    let W (s : store) x inbound qp := t <- get_t ts x ;; wrapper s o (po_id op) (po_adjy op) c t inbound qp in
-    r <- match act_in, act_out, cons with
-         | [], [], _ => Ok ([], [], s)
-         | _, _, SameAsInput =>
-             match act_in with
-             | [x] =>
-                 pi <- W s x true None ;;
-                 qp <- first_param pi true ;;
-                 po <- mapM (fun y => W s y false qp) act_out ;;
-                 (* output statistics := input statistics (KeyError if absent) *)
-                 ti <- get_t ts x ;;
-                 v <- match store_get s (tname ti) with Some v => Ok v | None => Err KeyError end ;;
-                 s' <- foldM (fun s y => ty <- get_t ts y ;; Ok (store_set s (tname ty) v))
-                             act_out s ;;
-                 Ok ([pi], po, s')
-             | _ => Err ValueError
-             end
-         | _, _, SameAsOutput =>
-             match act_out with
-             | [y] =>
-                 po <- W s y false None ;;
-                 qp <- first_param po false ;;
-                 pi <- mapM (fun x => W s x true qp) act_in ;;
-                 Ok (pi, [po], s)
-             | _ => Err ValueError
-             end
-         | _, _, NoConstrain =>
-             pi <- mapM (fun x => W s x true None) act_in ;;
-             po <- mapM (fun y => W s y false None) act_out ;;
-             Ok (pi, po, s)
-         end ;;
+    r <- standard_core s ts o op c cons (kept pin) (kept pout) ;;
     let '(pi, po, s') := r in
-    (* merge with the ignored operands, keeping operand order *)
-    let merge (l : list (Z * bool)) (ps : list tplan) (inbound : bool) :=
-      (fix go (l : list (Z * bool)) (ps : list tplan) : res (list tplan) :=
-         match l with
-         | [] => Ok []
-         | (x, true) :: r =>
-             match ps with
-             | p :: ps' => rest <- go r ps' ;; Ok (p :: rest)
-             | [] => Err IndexError
-             end
-         | (x, false) :: r =>
-             t <- get_t ts x ;;
-             rest <- go r ps ;;
-             Ok (entry_plan t inbound (noquant_entry (po_id op)) :: rest)
-         end) l ps in
-    mi <- merge pin pi true ;;
-    mo <- merge pout po false ;;
+    mi <- merge_plans ts (po_id op) true pin pi ;;
+    mo <- merge_plans ts (po_id op) false pout po ;;
     Ok (mi ++ mo, s').
 
   (* replace the k-th element; IndexError when out of range (list assignment) *)
